@@ -405,13 +405,17 @@ func checkURLHypotheses(s string, u *url.URL) {
 			urlHypothesisFailures = append(urlHypothesisFailures, fmt.Sprintf("%s input=%q string=%q", h, s, u.String()))
 		}
 	}
-	for i := 0; i < len(s); i++ {
-		if isCtl(s[i]) {
-			fail("U1 url.Parse accepted a control character")
+	out := u.String()
+	for i := 0; i < len(out); i++ {
+		if isCtl(out[i]) {
+			fail("U1 String() contains a control character")
+			break
+		}
+		if out[i] == ' ' && u.Opaque == "" {
+			fail("U1 String() of a non-opaque URL contains a space")
 			break
 		}
 	}
-	out := u.String()
 	if u.Scheme != "" {
 		if !strings.HasPrefix(out, u.Scheme+":") {
 			fail("U3 String() does not begin with scheme:")
